@@ -23,7 +23,9 @@ CONSTANTS NTasks, MaxT, MD, MaxCalls, DueCheck, AtomicHandlers,
           Fault   \* "none", or a plausible regression whose counterexamples become adversarial scripts:
                   \* "cancelctx" (the start check trusts the task context, which is refreshed after a run, instead of the
                   \* canceled flag), "overtimenodue" (the due re-check guards only the promote branch),
-                  \* "lateexecuting" (the executing flag is set when the function is launched, not when the start is decided)
+                  \* "lateexecuting" (the executing flag is set when the function is launched, not when the start is decided),
+                  \* "staleovertime" (the overtime flag survives the removal of the task from the schedule),
+                  \* "noslot" (an execution started by the schedule handler does not take the queue slot)
 Tasks == 1..NTasks
 None == 0
 
@@ -56,7 +58,9 @@ Init ==
            sg |-> 0,                      \* the entry (its number) the schedule handler acted on when it decided to run a task
            open |-> AllF(FALSE),          \* ghost: a submission was made since the task's last start (Schedule(zero time) leaves it
                                           \* as it is: whether unscheduling withdraws a queue submission is not documented)
-           extra |-> FALSE ]              \* ghost: a run was started for a task that had no submission pending              \* Task.repeat: interval after which a finished run is scheduled again (0: none)
+           extra |-> FALSE,
+           directSched |-> FALSE,         \* ghost: the schedule handler decided to run a task itself that was only scheduled (never queued)
+           qdrop |-> FALSE ]              \* ghost: the queue handler took a task from the queue while its function was running              \* ghost: a run was started for a task that had no submission pending              \* Task.repeat: interval after which a finished run is scheduled again (0: none)
   /\ last = Lbl("init", 0, "-", 0)
 
 Remove(q, t) == SelectSeq(q, LAMBDA x : x # t)
@@ -141,7 +145,7 @@ RWL(r, t) ==
     LET r1 == [r EXCEPT !.queue = IF r.qe[t] THEN Remove(@, t) ELSE @,
                         !.prio = IF r.pe[t] THEN Remove(@, t) ELSE @,
                         !.sched = IF r.se[t] THEN Remove(@, t) ELSE @,
-                        !.overtime[t] = IF r.se[t] THEN FALSE ELSE @,
+                        !.overtime[t] = IF r.se[t] /\ Fault # "staleovertime" THEN FALSE ELSE @,
                         !.qe[t] = FALSE, !.pe[t] = FALSE, !.se[t] = FALSE]
     IN IF r.executing[t]
        THEN [go |-> FALSE, r |-> [r1 EXCEPT !.lost = @ \/ (r.subAfter[t] /\ ~r.canceled[t] /\ r.subKind[t] # "none"),
@@ -176,7 +180,8 @@ PoppedHeld == \/ s.qg.k = "q" /\ s.qe[s.qt] /\ s.qgen[s.qt] = s.qg.n
 QRwl == /\ s.qh = "rwl"
         /\ IF QueueElemCheck /\ ~AtomicHandlers /\ ~PoppedHeld
            THEN s' = [s EXCEPT !.qh = "wgwait"]
-           ELSE LET x == RWL(s, s.qt) IN s' = [x.r EXCEPT !.qh = IF x.go THEN "launch" ELSE "wgwait"]
+           ELSE LET x == RWL(s, s.qt) IN s' = [x.r EXCEPT !.qh = IF x.go THEN "launch" ELSE "wgwait",
+                                                           !.qdrop = @ \/ (s.running[s.qt] /\ ~s.canceled[s.qt])]
         /\ last' = Lbl("qh", s.qt, "rwl", 0)
 QLaunch == /\ s.qh = "launch" /\ s' = [Launch(s, s.qt) EXCEPT !.qh = "wgwait"] /\ last' = Lbl("qh", s.qt, "launch", 0)
 
@@ -198,6 +203,7 @@ SFront == /\ s.sh = "fired"
                        LET e == s.early \/ (s.subKind[t] = "sched" /\ s.schedAt[t] > s.now) IN
                        \* running a queued task directly although its max delay has not expired
                        IF s.overtime[t] THEN [s EXCEPT !.st = t, !.overtime[t] = FALSE, !.sh = "rwl", !.early = e, !.sg = s.sgen[t],
+                                                      !.directSched = @ \/ (s.subKind[t] = "sched" /\ ~s.executing[t]),
                                                       !.earlyOT = @ \/ (s.execAt[t] > s.now)]
                                         ELSE [s EXCEPT !.st = t, !.overtime[t] = TRUE, !.sh = "asap", !.early = e]
           /\ last' = Lbl("sh", 0, "front", 0)
@@ -214,7 +220,9 @@ SRwl == /\ s.sh = "rwl"
            THEN s' = [s EXCEPT !.sh = "arm"]
            ELSE LET x == RWL(s, s.st) IN s' = [x.r EXCEPT !.sh = IF x.go THEN "launch" ELSE "arm"]
         /\ last' = Lbl("sh", s.st, "rwl", 0)
-SLaunch == /\ s.sh = "launch" /\ s' = [Launch(s, s.st) EXCEPT !.sh = "arm"] /\ last' = Lbl("sh", s.st, "launch", 0)
+SLaunch == /\ s.sh = "launch"
+           /\ s' = [Launch(s, s.st) EXCEPT !.sh = "arm", !.slot[s.st] = IF Fault = "noslot" THEN FALSE ELSE @]
+           /\ last' = Lbl("sh", s.st, "launch", 0)
 
 \* ------------------------------------------------------------------ the task function returns (deferred part of executeWithLocking)
 \* "repeat?": a repeating task whose execution time is still cleared (nobody scheduled or queued it since the start was
@@ -249,6 +257,10 @@ NoStartAfterCancel == ~s.startedCanceled
 NoEarlyOvertime == ~s.earlyOT
 \* "not more often than it was submitted": no run is started for a task without a pending submission
 NoExtraRun == ~s.extra
+\* a task that was only scheduled is put into the queue at its time, never run by the schedule handler itself
+NoDirectSched == ~s.directSched
+\* the queue handler takes the next task only when no execution holds the queue slot: never a task whose function is running
+NoQueueDropWhileRunning == ~s.qdrop
 Quiescent == /\ s.qh = "idle" /\ ~s.signal /\ s.sh = "wait" /\ ~s.notif /\ \A t \in Tasks : ~s.running[t]
              /\ s.now = MaxT /\ (s.sched = <<>> \/ s.execAt[Head(s.sched)] > s.now)
 \* at quiescence nothing that was submitted and not cancelled is forgotten: it is still in the schedule for later
